@@ -43,6 +43,13 @@ def make_cases(run):
     cases.append(("b:no-include-disallowed", [two] + full + ["shmem 1"], "boundary"))
     cases.append(("b:stale-caches", ["flags 1", two] + full + ["pre robj 1001 0 0", "shmem 0"], "boundary"))
     cases.append(("b:plain-pu1", ["src synthetic pu:1", "shmem 0"], "boundary"))
+    # more than 512 PUs (bitmaps larger than their preallocation): cpuset initiators built by the application (small allocation), a second one
+    # added to an existing target while the attribute cache is valid, and a size sweep with a fresh initiator at every step
+    big = "src synthetic node:2 core:130 pu:2"
+    cases.append(("b:big-second-initiator", [big, "pre mset 2 0 0:00ff 10", "pre obs", "pre mset 2 0 0:ff00 20", "shmem 1"], "boundary"))
+    cases.append(("b:big-many-initiators", [big] + ["pre mset 2 0 0:%x %d" % (1 << i, 100 + i) for i in range(0, 40, 3)] + ["pre mset 5 1 0:f000 9", "republish 0 4"], "republish"))
+    for lo in range(1, 521, 65) if not quick else (1, 261):
+        cases.append(("sweep:big-fresh-initiator:%d" % lo, [big, "pre mset 2 0 0:1 5", "sweep %d 65 mset 2 0 @ 7" % lo], "sweep"))
     # INCLUDE_DISALLOWED + allow(CUSTOM): initiators straddling allowed/disallowed PUs, a query before the last mutation
     cases.append(("b:disallowed-initiators", ["flags 1", two, "pre allowobj 1004 0 5", "pre allownode 0 0", "pre mseto 2 0 1001 0 500", "pre obs", "pre mseto 2 0 1001 1 1000",
                                               "pre mseto 2 0 1003 3 2000", "pre distadd 1004 8 5 0 1", "pre kobj 1003 3 2 k a", "shmem 1"], "boundary"))
@@ -272,7 +279,7 @@ def check(run, replay=None):
             run.cov["traces_validated_against_impl"] += 1
         spec_broken = any(not c for _, _, c in fs)
         if r.get("bad_steps"):       # the concrete size: replay only that step
-            script = "\n".join(script_of([x if not x.startswith("sweep ") else "sweep %d 1" % r["bad_steps"][0] for x in ls]))
+            script = "\n".join(script_of([x if not x.startswith("sweep ") else ("sweep %d 1 " % r["bad_steps"][0] + " ".join(x.split(" ")[3:])).rstrip() for x in ls]))
         for key, what, corr in fs:
             if key in reported:
                 continue
